@@ -15,6 +15,7 @@ import (
 	"github.com/fullstorydev/grpchan"
 	"github.com/fullstorydev/grpchan/httpgrpc"
 	"github.com/fullstorydev/grpchan/inprocgrpc"
+	"github.com/fullstorydev/grpchan/simrt"
 	"google.golang.org/grpc"
 	"google.golang.org/grpc/status"
 	"google.golang.org/protobuf/proto"
@@ -310,6 +311,8 @@ func (s *Sim) serverUnaryInt(layer string) grpc.UnaryServerInterceptor {
 		id := -1
 		if rs := s.rpcByFullMethod(info.FullMethod, ctx); rs != nil {
 			id = rs.r.ID
+			simrt.Adopt(fmt.Sprintf("h%d", id), id)
+			simrt.Yield(fmt.Sprintf("h%d:int", id))
 		}
 		s.instant(id, 'h', 0, "int-enter", func(e *Event) {
 			e.Note = layer
@@ -335,6 +338,8 @@ func (s *Sim) serverStreamInt(layer string) grpc.StreamServerInterceptor {
 		id := -1
 		if rs := s.rpcByFullMethod(info.FullMethod, ss.Context()); rs != nil {
 			id = rs.r.ID
+			simrt.Adopt(fmt.Sprintf("h%d", id), id)
+			simrt.Yield(fmt.Sprintf("h%d:int", id))
 		}
 		s.instant(id, 'h', 0, "int-enter", func(e *Event) {
 			e.Note = layer
